@@ -675,7 +675,7 @@ func partMethods(c *kit.Ctx) {
 		runValidator(c, c.Rand.Fork(), m)
 	}
 	forceTight = false
-	n := 36
+	n := 24
 	if c.Thorough() {
 		n = 200
 	}
@@ -725,6 +725,44 @@ func (m *recMethod) ComputeCommands(ctx context.Context, mp map[string]int, cs .
 	m.cmds = cmds
 	m.err = err
 	return cmds, err
+}
+
+// gObservedMapping renders the mapping the controller handed to the method, by pool id.
+func gObservedMapping(mp map[string]int, w *world) string {
+	byID := map[int]int{}
+	for name, v := range mp {
+		if id := w.poolID(name); id != 0 {
+			byID[id] = v
+		}
+	}
+	return gMapInt(byID)
+}
+
+// envOps renders an applied event as model ops; only after its last term (a clock move is followed
+// by the re-supplied schedule descriptions) is the real mapping comparable with the model's.
+func (s *roundState) envOps(e jEvent, r *kit.Rand) []string {
+	terms := s.envTerms(e)
+	var out []string
+	for i, t := range terms {
+		post := "(Empty, [])"
+		if i == len(terms)-1 {
+			post = s.post(r)
+		}
+		out = append(out, fmt.Sprintf("(OEnv %s, [], [], %s)", t, post))
+	}
+	return out
+}
+
+// post observes the budget mapping of the real cluster as it is now, for a reason picked at random.
+func (s *roundState) post(r *kit.Rand) string {
+	reason := kit.Pick(r, reasonNames)
+	s.w.faults.suspended = true
+	mp, err := disruption.BuildDisruptionBudgetMapping(s.w.ctx, s.w.cluster, s.w.clk, s.w.c, s.w.cp, s.w.recorder, reason)
+	s.w.faults.suspended = false
+	if err != nil {
+		panic(err)
+	}
+	return kit.GPair(gReason(reason), gObservedMapping(mp, s.w))
 }
 
 type methodSlot struct {
@@ -1018,9 +1056,7 @@ func runRounds(c *kit.Ctx, r *kit.Rand, nOps int) {
 		case x < 3:
 			e := genEnv()
 			s.applyEvent(e)
-			for _, t := range s.envTerms(e) {
-				gops = append(gops, fmt.Sprintf("(OEnv %s, [])", t))
-			}
+			gops = append(gops, s.envOps(e, r)...)
 			jops = append(jops, jOp{Op: "env", Event: &e})
 		case x < 7:
 			m := m0
@@ -1216,6 +1252,11 @@ func runRounds(c *kit.Ctx, r *kit.Rand, nOps int) {
 					cmdsInFlight = append(cmdsInFlight, ids)
 					if len(w.queue.ProviderIDToCommand[providerID(id)].Replacements) > 0 {
 						c.Count("R:command=with-replacement")
+						// look at the very next budget mapping: the candidates of a command that waits for
+						// its replacement must already consume budget
+						if !repeated {
+							forceM = m
+						}
 					} else {
 						c.Count("R:command=delete-only")
 					}
@@ -1247,8 +1288,8 @@ func runRounds(c *kit.Ctx, r *kit.Rand, nOps int) {
 			if len(startfail) > 0 && len(newq) > 0 {
 				c.Count("R:start=partially-marked")
 			}
-			gops = append(gops, fmt.Sprintf("(ODisrupt %s %s %s %s %s %s [] %s %s, %s)", methodNames[m], kit.GListOf(jc, gCand), choice, kit.GBool(!dv.schedulingRejected),
-				kit.GList(betweenTerms), kit.GListOf(cur, gCand), kit.GListOf(cur, gCand), gInts(startfail), gInts(newq)))
+			gops = append(gops, fmt.Sprintf("(ODisrupt %s %s %s %s %s %s [] %s %s, %s, %s, %s)", methodNames[m], kit.GListOf(jc, gCand), choice, kit.GBool(!dv.schedulingRejected),
+				kit.GList(betweenTerms), kit.GListOf(cur, gCand), kit.GListOf(cur, gCand), gInts(startfail), gInts(newq), gObservedMapping(rec.mapping, w), s.post(r)))
 			jops = append(jops, jOp{Op: "disrupt", Method: methodNames[m], Between: between, Cands: jc, Proposed: proposed, NewQueue: newq, Mapping: rec.mapping, Fault: fault, StartFailed: startfail})
 		case x < 9 && len(cmdsInFlight) > 0:
 			// the queue finishes a command (successfully if it needs no replacement, else it times out)
@@ -1276,9 +1317,7 @@ func runRounds(c *kit.Ctx, r *kit.Rand, nOps int) {
 					// let the command time out: the queue then gives up and un-marks the candidates
 					e := jEvent{Kind: "clock", Time: w.clk.Now().Add(2 * time.Hour).UnixNano()}
 					s.applyEvent(e)
-					for _, t := range s.envTerms(e) {
-						gops = append(gops, fmt.Sprintf("(OEnv %s, [])", t))
-					}
+					gops = append(gops, s.envOps(e, r)...)
 					for j := range cmd.Replacements {
 						cmd.Replacements[j].Initialized = false
 					}
@@ -1300,7 +1339,7 @@ func runRounds(c *kit.Ctx, r *kit.Rand, nOps int) {
 					s.nodes[id].Marked = false
 				}
 			}
-			gops = append(gops, fmt.Sprintf("(OComplete %s %s, [])", gInts(ids), kit.GBool(ok)))
+			gops = append(gops, fmt.Sprintf("(OComplete %s %s, [], [], %s)", gInts(ids), kit.GBool(ok), s.post(r)))
 			jops = append(jops, jOp{Op: "complete", IDs: ids, OK: ok})
 			c.Count(fmt.Sprintf("R:complete:ok=%v", ok))
 		case x == 9 && r.Chance(1, 3):
@@ -1341,7 +1380,7 @@ func runRounds(c *kit.Ctx, r *kit.Rand, nOps int) {
 			methods = map[int]*methodSlot{}
 			reserved = map[int]int{}
 			cmdsInFlight = nil
-			gops = append(gops, "(ORestart, [])")
+			gops = append(gops, "(ORestart, [], [], "+s.post(r)+")")
 			jops = append(jops, jOp{Op: "restart"})
 			c.Count("R:restart")
 		}
@@ -1354,7 +1393,7 @@ func runRounds(c *kit.Ctx, r *kit.Rand, nOps int) {
 }
 
 func partRounds(c *kit.Ctx) {
-	n, ops := 50, 8
+	n, ops := 80, 8
 	if c.Thorough() {
 		n, ops = 250, 12
 	}
